@@ -78,11 +78,11 @@ def run(ctx):
     all_ctl = "{{}}"
     ctl_sets = tla_set([
         "{}",
-        "{<<0,FALSE,2,1>>}",
-        "{<<1,TRUE,2,1>>, <<1,FALSE,5,2>>}",
-        "{<<2,FALSE,3,1>>, <<0,TRUE,5,2>>}",
-        "{<<1,FALSE,2,1>>, <<1,FALSE,5,2>>, <<1,FALSE,1,3>>}",
-        "{<<0,TRUE,2,1>>, <<2,FALSE,2,2>>}",
+        '{<<0,FALSE,2,1,"int">>}',
+        '{<<1,TRUE,2,1,"int">>, <<1,FALSE,5,2,"int">>}',
+        '{<<2,FALSE,3,1,"int">>, <<0,TRUE,5,2,"int">>}',
+        '{<<1,FALSE,2,1,"int">>, <<1,FALSE,5,2,"int">>, <<1,FALSE,1,3,"int">>}',
+        '{<<0,TRUE,2,1,"int">>, <<2,FALSE,2,2,"int">>}',
     ])
     configs = [
         # label, constants, simulate
@@ -111,7 +111,7 @@ def run(ctx):
                                                       "Controls": ctl_sets}, "num=3000"))
     jobs = []
     for label, consts, sim in configs:
-        consts = dict(consts, Emit="TRUE")
+        consts = dict(consts, Emit="TRUE", Devs="{}")
         if sim:
             r = ctx.tlc("PTContract", CFG, label=label, constants=consts, workers=1,
                         simulate=sim + ",", extra=["-depth", "40", "-seed", str(ctx.seed + 11)])
